@@ -213,30 +213,30 @@ def paramsOk (h : String × List String × List String × Bool) (data : Data) : 
 
 abbrev Dlv := St → Nat → EType → Data → St × Res
 
+/-- statement sequencing: an exception ends the statement list and propagates -/
+def andThen (p : St × Res) (k : St → St × Res) : St × Res :=
+  match p.2 with
+  | .exc x => (p.1, .exc x)
+  | .ret _ => k p.1
+
 /-- `for event in events: event.send(source, **data)` — an exception ends the loop -/
 def sendEdges (dlv : Dlv) (src : Nat) : St → List Edge → Data → St × Res
   | s, [], _ => (s, .ret .none)
   | s, e :: es, data =>
     match applyFilters e.filters (data.set "source" (.str (blockName src))) with
     | Option.none => sendEdges dlv src s es data            -- rejected by a filter: `return False`
-    | some data' =>
-      match dlv s e.dest e.etype data' with
-      | (s1, .exc x) => (s1, .exc x)
-      | (s1, .ret _) => sendEdges dlv src s1 es data
+    | some data' => andThen (dlv s e.dest e.etype data') (fun s1 => sendEdges dlv src s1 es data)
 
 /-- `SBlock.set_output` -/
 def setOutput (dlv : Dlv) (b : Blk) (d : Nat) (s : St) (v : Val) : St × Res :=
   if v.isUndef then (s, .exc .valueError)
   else
-    let prev := s.out d
-    let data : Data := [("trigger", .str "output"), ("previous", prev), ("value", v)]
-    if prev.pyEq v then
+    let data : Data := [("trigger", .str "output"), ("previous", s.out d), ("value", v)]
+    if (s.out d).pyEq v then
       sendEdges dlv d s b.onEvery data
     else
-      let s1 := { s with out := upd s.out d v }
-      match sendEdges dlv d s1 b.onOutput data with
-      | (s2, .exc x) => (s2, .exc x)
-      | (s2, .ret _) => sendEdges dlv d s2 b.onEvery data
+      andThen (sendEdges dlv d { s with out := upd s.out d v } b.onOutput data)
+        (fun s2 => sendEdges dlv d s2 b.onEvery data)
 
 def runAct (dlv : Dlv) (b : Blk) (d : Nat) (s : St) : Act → St × Res
   | .setOut v => setOutput dlv b d s v
@@ -249,10 +249,7 @@ def runAct (dlv : Dlv) (b : Blk) (d : Nat) (s : St) : Act → St × Res
 
 def runActs (dlv : Dlv) (b : Blk) (d : Nat) : St → List Act → St × Res
   | s, [] => (s, .ret .none)
-  | s, a :: as =>
-    match runAct dlv b d s a with
-    | (s1, .exc x) => (s1, .exc x)
-    | (s1, .ret _) => runActs dlv b d s1 as
+  | s, a :: as => andThen (runAct dlv b d s a) (fun s1 => runActs dlv b d s1 as)
 
 def counterCfg (b : Blk) : Counter.Cfg :=
   ⟨b.cmod, (Counter.Num.ofVal? b.initdef).getD ⟨0, .int⟩⟩
@@ -262,6 +259,31 @@ def numArg (data : Data) (k : String) : Option (Option Counter.Num) :=
   match data.get? k with
   | Option.none => some Option.none
   | some v => (Counter.Num.ofVal? v).map some
+
+/-- `Input._validate` with `allowed=` -/
+def inputAllowed (b : Blk) (v : Val) : Bool :=
+  match b.allowed with
+  | Option.none => true
+  | some l => l.any (fun a => a.pyEq v)
+
+/-- the Counter event as an operation of `Edzed.Counter.step`; `none`: arithmetic on a non-number -/
+def counterOp (name : String) (data : Data) : Option Counter.Op :=
+  if name == "inc" then (numArg data "amount").map .inc
+  else if name == "dec" then (numArg data "amount").map .dec
+  else if name == "put" then
+    match numArg data "value" with
+    | some (some v) => some (.put (some v))
+    | _ => Option.none
+  else some .reset
+
+/-- the value a Counter event stores and returns (`_setmod`), or the exception it raises -/
+def counterResult (b : Blk) (out : Val) (name : String) (data : Data) : Except Exc Val :=
+  match Counter.Num.ofVal? out, counterOp name data with
+  | some cur, some op =>
+    match (Counter.step (counterCfg b) cur op).2 with
+    | .ret v => .ok v.toVal
+    | .paramError => .error .other       -- unreachable: the call does not bind without `value`
+  | _, _ => .error .typeError            -- arithmetic on a non-number raises TypeError
 
 /-- the handler body, entered after the call has bound its parameters -/
 def handlerBody (dlv : Dlv) (b : Blk) (d : Nat) (s : St) (name : String) (data : Data) : St × Res :=
@@ -276,57 +298,35 @@ def handlerBody (dlv : Dlv) (b : Blk) (d : Nat) (s : St) (name : String) (data :
     match data.get? "value" with
     | Option.none => (s, .exc .other)          -- unreachable: the call does not bind without `value`
     | some v =>
-      let ok := match b.allowed with
-        | Option.none => true
-        | some l => l.any (fun a => a.pyEq v)
-      if !ok then (s, .ret (.bool false))
-      else match setOutput dlv b d s v with
-        | (s1, .exc x) => (s1, .exc x)
-        | (s1, .ret _) => (s1, .ret (.bool true))
+      if !inputAllowed b v then (s, .ret (.bool false))
+      else andThen (setOutput dlv b d s v) (fun s1 => (s1, .ret (.bool true)))
   | .counter =>
-    -- `_setmod(self._output ± amount)` etc.; arithmetic on a non-number raises TypeError
-    match Counter.Num.ofVal? (s.out d) with
-    | Option.none => (s, .exc .typeError)
-    | some cur =>
-      let op : Option Counter.Op :=
-        if name == "inc" then (numArg data "amount").map .inc
-        else if name == "dec" then (numArg data "amount").map .dec
-        else if name == "put" then
-          match numArg data "value" with
-          | some (some v) => some (.put (some v))
-          | _ => Option.none
-        else some .reset
-      match op with
-      | Option.none => (s, .exc .typeError)
-      | some op =>
-        match (Counter.step (counterCfg b) cur op).2 with
-        | .paramError => (s, .exc .other)      -- unreachable (see above)
-        | .ret v =>
-          match setOutput dlv b d s v.toVal with
-          | (s1, .exc x) => (s1, .exc x)
-          | (s1, .ret _) => (s1, .ret v.toVal)
+    -- `_setmod(self._output ± amount)` etc.
+    match counterResult b (s.out d) name data with
+    | .error x => (s, .exc x)
+    | .ok v => andThen (setOutput dlv b d s v) (fun s1 => (s1, .ret v))
+
+/-- `init_regular()` -/
+def initRegular (dlv : Dlv) (b : Blk) (d : Nat) (s : St) : St × Res :=
+  match b.kind with
+  | .probe => runActs dlv b d s b.initScript
+  | _ => (s, .ret .none)
+
+/-- `init_from_value(initdef)` if the block is still uninitialised and has an initdef -/
+def initFromValue (dlv : Dlv) (b : Blk) (d : Nat) (s : St) : St × Res :=
+  if (s.out d).isUndef && !b.initdef.isUndef then
+    match b.kind with
+    | .probe => (s, .ret .none)                                  -- no `init_from_value`
+    | .input => dlv s d (.name "put") [("value", b.initdef)]    -- `self.event('put', value=value)`
+    | .counter => setOutput dlv b d s (Counter.reduce (counterCfg b) (counterCfg b).initdef).toVal
+  else (s, .ret .none)
 
 /-- second step of `Circuit.init_sblock`: `init_regular`, then `init_from_value(initdef)` if the
     block is still uninitialised.  An exception leaves `init_steps_completed` at -2. -/
 def initBlock (dlv : Dlv) (b : Blk) (d : Nat) (s : St) : St × Res :=
-  let s1 := { s with init := upd s.init d .running }
-  let (s2, r) := match b.kind with
-    | .probe => runActs dlv b d s1 b.initScript
-    | _ => (s1, Res.ret .none)
-  match r with
-  | .exc x => (s2, .exc x)
-  | .ret _ =>
-    let (s3, r3) :=
-      if (s2.out d).isUndef && !b.initdef.isUndef then
-        match b.kind with
-        | .probe => (s2, Res.ret .none)                              -- no `init_from_value`
-        | .input => dlv s2 d (.name "put") [("value", b.initdef)]   -- `self.event('put', value=value)`
-        | .counter =>
-          setOutput dlv b d s2 (Counter.reduce (counterCfg b) (counterCfg b).initdef).toVal
-      else (s2, Res.ret .none)
-    match r3 with
-    | .exc x => (s3, .exc x)
-    | .ret _ => ({ s3 with init := upd s3.init d .done }, .ret .none)
+  andThen (initRegular dlv b d { s with init := upd s.init d .running }) fun s2 =>
+  andThen (initFromValue dlv b d s2) fun s3 =>
+  ({ s3 with init := upd s3.init d .done }, .ret .none)
 
 /-! ### `SBlock.event` -/
 
@@ -336,6 +336,44 @@ def classify (s : St) : Res → St
   | .exc .outOfFuel => s
   | .exc _ => s.abort .circuitError         -- error inside the handler: `circuit.abort(sim_err)`; `raise`
   | .ret _ => s
+
+/-- the early initialisation of a destination whose second initialisation step is pending:
+    `with self._enable_event: self.circuit.init_sblock(self, full=True)` -/
+def earlyInit (dlv : Dlv) (b : Blk) (d : Nat) (stk0 : List Frame) (s1 : St) : St × Res :=
+  if s1.init d = .pending then
+    -- `_enable_event.__enter__`
+    let saved := s1.active d
+    let s2 := { s1 with active := upd s1.active d false, stack := ⟨d, .init⟩ :: stk0 }
+    let p := initBlock dlv b d s2
+    -- `_enable_event.__exit__` (runs on every outcome)
+    ({ p.1 with active := upd p.1.active d saved, stack := stk0 }, p.2)
+  else (s1, Res.ret .none)
+
+/-- handler lookup, the call, classification of its outcome -/
+def callHandler (dlv : Dlv) (b : Blk) (d : Nat) (stk0 : List Frame) (s3 : St) (et' : EType)
+    (data : Data) : St × Res :=
+  match lookupHandler b.kind et' with
+  | Option.none => (s3, .exc .unknownEvent)       -- `self._event()` raises; re-raised, no abort
+  | some h =>
+    if !paramsOk h data then (s3, .exc .typeError)   -- the call itself fails: caller only
+    else
+      let depth := handlerDepth stk0 d + 1
+      let s4 := { s3 with stack := ⟨d, .handler⟩ :: stk0,
+                          trace := .enter d depth (data.get? "value") :: s3.trace }
+      let p := handlerBody dlv b d s4 h.1 data
+      -- the handler's frame is left (normally or by an exception)
+      let s6 := { p.1 with stack := stk0,
+                           trace := .exit d (match p.2 with | .ret _ => true | .exc _ => false) :: p.1.trace }
+      (classify s6 p.2, p.2)
+
+/-- the body of the `try` statement of `SBlock.event` -/
+def eventBody (dlv : Dlv) (b : Blk) (d : Nat) (stk0 : List Frame) (s1 : St) (et : EType)
+    (data : Data) : St × Res :=
+  let et' := et.resolve (dataTruthy data)
+  if et' = .none then (s1, .ret .none)            -- conditional event -> no event
+  else
+    -- an exception of the initialisation is not inside the inner `try`: no classification
+    andThen (earlyInit dlv b d stk0 s1) (fun s3 => callHandler dlv b d stk0 s3 et' data)
 
 def deliver (c : Circ) : Nat → St → Nat → EType → Data → St × Res
   | 0, s, _, _, _ => (s, .exc .outOfFuel)
@@ -350,39 +388,11 @@ def deliver (c : Circ) : Nat → St → Nat → EType → Data → St × Res
       -- `raise EdzedCircuitError("Forbidden recursive event() call")`, outside of the `try`
       ({ s with trace := .refused d :: s.trace }, .exc .circuitError)
     else
-      let stk0 := s.stack
       let s1 := { s with active := upd s.active d true }
       -- try:
-      let body : St × Res :=
-        let et' := et.resolve (dataTruthy data)
-        if et' = .none then (s1, .ret .none)          -- conditional event -> no event
-        else
-          -- early initialisation of an uninitialised destination
-          let (s3, ri) :=
-            if s1.init d = .pending then
-              -- `with self._enable_event:` __enter__
-              let saved := s1.active d
-              let s2 := { s1 with active := upd s1.active d false, stack := ⟨d, .init⟩ :: stk0 }
-              let (s3, ri) := initBlock (deliver c fuel) b d s2
-              -- __exit__ (runs on every outcome)
-              ({ s3 with active := upd s3.active d saved, stack := stk0 }, ri)
-            else (s1, Res.ret .none)
-          match ri with
-          | .exc x => (s3, .exc x)                    -- not inside the inner `try`: no classification
-          | .ret _ =>
-            match lookupHandler b.kind et' with
-            | Option.none => (s3, .exc .unknownEvent) -- `self._event()` raises; re-raised, no abort
-            | some h =>
-              if !paramsOk h data then (s3, .exc .typeError)   -- the call itself fails: caller only
-              else
-                let depth := handlerDepth stk0 d + 1
-                let s4 := { s3 with stack := ⟨d, .handler⟩ :: stk0,
-                                    trace := .enter d depth (data.get? "value") :: s3.trace }
-                let (s5, r) := handlerBody (deliver c fuel) b d s4 h.1 data
-                let s6 := { s5 with trace := .exit d (match r with | .ret _ => true | .exc _ => false) :: s5.trace }
-                (classify s6 r, r)
+      let p := eventBody (deliver c fuel) b d s.stack s1 et data
       -- finally:
-      ({ body.1 with active := upd body.1.active d false, stack := stk0 }, body.2)
+      ({ p.1 with active := upd p.1.active d false }, p.2)
 
 /-! ### top level -/
 
@@ -406,9 +416,7 @@ def initLoop (c : Circ) : St → List Nat → St × Res
     | Option.none => (s, .exc .other)
     | some b =>
       if s.init d = .pending then
-        match initBlock (deliver c c.fuel) b d s with
-        | (s1, .exc x) => (s1, .exc x)
-        | (s1, .ret _) => initLoop c s1 ds
+        andThen (initBlock (deliver c c.fuel) b d s) (fun s1 => initLoop c s1 ds)
       else initLoop c s ds
 
 /-- `_init_sblocks_sync_2` as called from `run_forever`: an exception becomes `Circuit._error`
